@@ -7,8 +7,8 @@ import DEngine.Model.Memb
       (push own `last_entry_id`, sort descending, element `len/2`, `>= commit`, term check through
        `entry(idx)`), `last_index_for_term`
   * d-engine-core/src/raft_role/leader_state.rs `calculate_new_commit_index` (voter filter over the
-      *keys present in* `match_index`, by role in the cached `replication_targets`),
-      `update_match_index` (only advances — so a 0 is never stored), `update_next_index` (floor
+      non-learner entries of the cached `replication_targets`, `match_index.get(id).unwrap_or(0)`
+      — code as of fix 6ed8b1f), `update_match_index` (only advances — so a 0 is never stored), `update_next_index` (floor
       `match+1`), `update_peer_index`, `init_peers_next_index_and_match_index`,
       `handle_append_result`, `handle_log_flushed`, `handle_membership_applied`,
       `update_cluster_metadata`/`init_cluster_metadata`, `check_learner_progress` →
@@ -73,8 +73,15 @@ def isVoterTarget (targets : List Node) (id : Nat) : Bool :=
 def isLearnerTarget (targets : List Node) (id : Nat) : Bool :=
   targets.any fun n => n.id == id && n.role == rLearner
 
-/-- the vector handed to `calculate_majority_matched_index` -/
-def voterMatches (s : Leader) : List Nat :=
+/-- peers that are voters by role in the leader's cached configuration -/
+def voterPeers (targets : List Node) : List Nat := (targets.filter fun n => n.role != rLearner).map (·.id)
+
+/-- the vector handed to `calculate_majority_matched_index` (after fix 6ed8b1f): one value per
+    non-learner replication target, `match_index.get(id).unwrap_or(0)` -/
+def voterMatches (s : Leader) : List Nat := (voterPeers s.targets).map (mgetD s.matchIdx)
+
+/-- the vector before fix 6ed8b1f (defect F30): only the entries *present* in `match_index` -/
+def voterMatchesSparse (s : Leader) : List Nat :=
   (s.matchIdx.filter fun e => isVoterTarget s.targets e.1).map (·.2)
 
 /-- `LeaderState::calculate_new_commit_index` -/
@@ -246,9 +253,6 @@ deriving Repr, Inhabited
 
 def Leader.obs (s : Leader) : Obs :=
   { commit := s.commit, term := s.term, matchIdx := s.matchIdx, nextIdx := s.nextIdx }
-
-/-- peers that are voters by role in the leader's cached configuration -/
-def voterPeers (targets : List Node) : List Nat := (targets.filter fun n => n.role != rLearner).map (·.id)
 
 def countGE (n : Nat) (l : List Nat) : Nat := (l.filter fun x => decide (n ≤ x)).length
 
